@@ -39,4 +39,37 @@ set_option maxRecDepth 100000 in
 /-- every transient entry names a field of the table -/
 theorem transient_in_table : (transient.all fun tf => (findFact tf.1 tf.2).isSome) = true := by decide +kernel
 
+/-! ### guards (structural coverage): under which conditions a field is written -/
+
+/-- every residual guard of the table: a condition on something other than the carried field -/
+def residualGuards : List (String × String × String × String) :=
+  fieldTable.flatMap fun r =>
+    (r.marshalGuard.map fun g => (r.ty, r.field, "marshal", g)) ++
+    (r.unmarshalGuard.map fun g => (r.ty, r.field, "unmarshal", g)) ++
+    (r.cloneGuard.map fun g => (r.ty, r.field, "clone", g))
+
+set_option maxRecDepth 100000 in
+/-- … they are exactly the recorded, justified ones (`guardAllowed`): container-emptiness tests
+around the elements of a container, and the transient SQLite handle. A field newly marshalled
+under a condition on another field shows up here (and in `tableOK`). -/
+theorem residualGuards_expected : residualGuards = [
+    ("Data", "SQLite", "unmarshal", "pb.GetIsSQLiteEnabled()"),
+    ("MeasurementVer", "Version", "marshal", "rpi.MstVersions != nil"), ("MeasurementVer", "Version", "marshal", "range rpi.MstVersions"),
+    ("SchemaVal", "Typ", "marshal", "cs != nil"), ("SchemaVal", "Typ", "marshal", "range *cs"),
+    ("SchemaVal", "EndTime", "marshal", "cs != nil"), ("SchemaVal", "EndTime", "marshal", "range *cs"),
+    ("Peer", "ID", "marshal", "len(rg.Peers) > 0"), ("Peer", "ID", "marshal", "range rg.Peers"),
+    ("Peer", "ID", "unmarshal", "len(pb.GetPeers()) > 0"), ("Peer", "ID", "unmarshal", "range pb.Peers"),
+    ("Peer", "PtRole", "marshal", "len(rg.Peers) > 0"), ("Peer", "PtRole", "marshal", "range rg.Peers"),
+    ("Peer", "PtRole", "unmarshal", "len(pb.GetPeers()) > 0"), ("Peer", "PtRole", "unmarshal", "range pb.Peers")] := by decide +kernel
+
+set_option maxRecDepth 100000 in
+theorem residualGuards_allowed : (residualGuards.all fun g => guardAllowed.contains g) = true := by decide +kernel
+
+/-- the guards ogfacts classified as harmless (a non-emptiness test of the carried field itself,
+of the protobuf field it is rebuilt from, or of the struct / message as a whole), pinned: a
+change of this list means the snapshot path changed shape and is re-validated. In particular
+`RetentionPolicyInfo.MstVersions marshal: rpi.MstVersions != nil` — the version counters are
+written whether or not the policy still has measurements. -/
+theorem selfGuards_expected : selfGuards = ["Data.ReplicaGroups marshal: len(data.ReplicaGroups) > 0", "Data.ReplicaGroups unmarshal: !(len(pb.ReplicaGroups) == 0)", "DatabaseInfo.ContinuousQueries clone: di.ContinuousQueries != nil", "DatabaseInfo.ContinuousQueries unmarshal: len(pb.GetContinuousQueries()) > 0", "DatabaseInfo.Options clone: di.Options != nil", "DatabaseInfo.Options marshal: di.Options != nil", "DatabaseInfo.Options unmarshal: pb.GetOptions() != nil", "DatabaseInfo.RetentionPolicies clone: di.RetentionPolicies != nil", "DatabaseInfo.RetentionPolicies unmarshal: len(pb.GetRetentionPolicies()) > 0", "DatabaseInfo.ShardKey marshal: di.ShardKey.ShardKey != nil || di.ShardKey.Type != \"\" || di.ShardKey.ShardGroup != 0", "DatabaseInfo.ShardKey unmarshal: pb.ShardKey != nil", "DbPtInfo.Pti unmarshal: pb.GetPt() != nil", "DbPtInfo.Shards marshal: range pt.Shards", "DbPtInfo.Shards unmarshal: len(pb.Shards) > 0", "DownSamplePolicyInfo.Calls marshal: len(d.Calls) > 0", "DownSamplePolicyInfo.Calls unmarshal: range pb.GetCalls()", "DownSamplePolicyInfo.DownSamplePolicies marshal: len(d.DownSamplePolicies) > 0", "DownSamplePolicyInfo.DownSamplePolicies unmarshal: range pb.GetDownSamplePolicies()", "IndexGroupInfo.ClearInfo unmarshal: pb.GetClearInfo() != nil", "IndexGroupInfo.EndTime unmarshal: !(i == 0)", "IndexGroupInfo.Indexes clone: igi.Indexes != nil", "IndexGroupInfo.Indexes unmarshal: len(pb.GetIndexes()) > 0", "IndexGroupInfo.StartTime unmarshal: !(i == 0)", "MeasurementInfo.ColStoreInfo clone: msti.ColStoreInfo != nil", "MeasurementInfo.ColStoreInfo marshal: msti.ColStoreInfo != nil", "MeasurementInfo.ColStoreInfo unmarshal: pb.GetColStoreInfo() != nil", "MeasurementInfo.IndexRelation unmarshal: pb.GetIndexRelation() != nil", "MeasurementInfo.ObsOptions clone: msti.ObsOptions != nil", "MeasurementInfo.ObsOptions marshal: msti.ObsOptions != nil", "MeasurementInfo.ObsOptions unmarshal: pb.GetObsOptions() != nil", "MeasurementInfo.Options clone: msti.Options != nil", "MeasurementInfo.Options marshal: msti.Options != nil", "MeasurementInfo.Options unmarshal: pb.GetOptions() != nil", "MeasurementInfo.Schema unmarshal: pbSchema != nil", "MeasurementInfo.ShardIdexes marshal: msti.ShardIdexes != nil", "MeasurementInfo.ShardKeys clone: msti.ShardKeys != nil", "MeasurementInfo.ShardKeys marshal: msti.ShardKeys != nil", "MeasurementInfo.ShardKeys unmarshal: pb.GetShardKeys() != nil", "MeasurementVer.NameWithVersion unmarshal: len(pb.GetMstVersions()) > 0", "MeasurementVer.NameWithVersion unmarshal: range mstVersions", "MeasurementVer.Version unmarshal: len(pb.GetMstVersions()) > 0", "MeasurementVer.Version unmarshal: range mstVersions", "ReplicaClearInfo.ClearPeers marshal: !(rci == nil)", "ReplicaClearInfo.NoClearIndexId marshal: !(rci == nil)", "ReplicaGroup.Peers marshal: len(rg.Peers) > 0", "ReplicaGroup.Peers unmarshal: len(pb.GetPeers()) > 0", "RetentionPolicyInfo.DownSamplePolicyInfo marshal: rpi.DownSamplePolicyInfo != nil", "RetentionPolicyInfo.DownSamplePolicyInfo unmarshal: pb.GetDownSamplePolicyInfo() != nil", "RetentionPolicyInfo.IndexGroups clone: rpi.IndexGroups != nil", "RetentionPolicyInfo.IndexGroups unmarshal: len(pb.GetIndexGroups()) > 0", "RetentionPolicyInfo.Measurements clone: rpi.Measurements != nil", "RetentionPolicyInfo.Measurements marshal: len(rpi.Measurements) > 0", "RetentionPolicyInfo.Measurements unmarshal: len(pb.GetMeasurements()) > 0", "RetentionPolicyInfo.MstVersions clone: rpi.MstVersions != nil", "RetentionPolicyInfo.MstVersions marshal: rpi.MstVersions != nil", "RetentionPolicyInfo.MstVersions unmarshal: len(pb.GetMstVersions()) > 0", "RetentionPolicyInfo.ShardGroups clone: rpi.ShardGroups != nil", "RetentionPolicyInfo.ShardGroups unmarshal: len(pb.GetShardGroups()) > 0", "RetentionPolicyInfo.Subscriptions marshal: len(rpi.Subscriptions) > 0", "RetentionPolicyInfo.Subscriptions unmarshal: len(pb.GetSubscriptions()) > 0", "SchemaVal.EndTime unmarshal: pbSchema != nil", "SchemaVal.EndTime unmarshal: range pbSchema", "SchemaVal.Typ unmarshal: pbSchema != nil", "SchemaVal.Typ unmarshal: range pbSchema", "ShardDurationInfo.Ident unmarshal: pb.Ident != nil", "ShardGroupInfo.EndTime unmarshal: !(i == 0)", "ShardGroupInfo.Shards clone: sgi.Shards != nil", "ShardGroupInfo.Shards unmarshal: len(pb.GetShards()) > 0", "ShardGroupInfo.StartTime unmarshal: !(i == 0)", "ShardGroupInfo.TruncatedAt marshal: !sgi.TruncatedAt.IsZero()", "ShardGroupInfo.TruncatedAt unmarshal: pb != nil", "ShardGroupInfo.TruncatedAt unmarshal: pb.TruncatedAt != nil", "ShardKeyInfo.ShardGroup marshal: ski.ShardGroup > 0", "ShardKeyInfo.ShardGroup unmarshal: pb.GetSgID() > 0", "StreamInfo.Calls marshal: len(s.Calls) > 0", "StreamInfo.Calls unmarshal: len(pb.Calls) > 0", "StreamInfo.Dims marshal: len(s.Dims) > 0", "SubscriptionInfo.Destinations unmarshal: len(pb.GetDestinations()) > 0", "UserInfo.Privileges clone: u.Privileges != nil", "UserInfo.Privileges marshal: range u.Privileges", "UserInfo.Privileges unmarshal: len(pb.Privileges) > 0"] := by rfl
+
 end OG.C15.Facts
